@@ -9,8 +9,7 @@ Definition judge (c : gcase) : verdict :=
   let model := run_C23 (g_ctx c) (g_stack c) (g_prog c) in
   {| v_corr := list_eqb event_eqb model (g_impl c);
      v_prop := ok_C23 (g_ctx c) (g_impl c);
-     v_tags := (if existsb guard_window model then ["red_zone_counts_guard_page"] else [])
-               ++ (if existsb (fun e => match e with EGrow _ _ true _ _ _ => true | _ => false end) model then ["grew"] else [])
+     v_tags := (if existsb (fun e => match e with EGrow _ _ true _ _ _ => true | _ => false end) model then ["grew"] else [])
                ++ (if existsb (fun e => match e with EGrow _ _ false _ _ _ => true | _ => false end) model then ["in_place"] else [])
                ++ (if existsb (fun e => match e with ECaught => true | _ => false end) model then ["caught"] else [])
                ++ (if wf_C23 (g_ctx c) (g_stack c) (g_prog c) then [] else ["malformed"]);
